@@ -13,7 +13,7 @@ use crate::{
 /// entity, `edited after the newest acknowledged message containing the entity` must coincide
 /// with `current value is in this tick's traffic to that client`.
 pub fn check_tick(cell: &ReplCell, x: &mut ReplExec) -> Result<(), Violation> {
-    if !x.sim.last_frame_was_tick {
+    if !x.sim.last_frame_was_tick || x.sim.acks.format_unknown {
         return Ok(());
     }
     let v = |oracle: &str, detail: String| Violation::new(cell.property, oracle, detail);
